@@ -743,6 +743,13 @@ func c16Dispatch(c *Ctx) {
 	rc := p.Method(agentRel, "agentConnection", "receive")
 	if c.Anchor(rd != nil && rc != nil, "conn-buffer", "agentConnection.Read / receive") {
 		n := 0
+		// the receive buffer: the connection's []byte field (by role, whatever it is called)
+		buffName := "buff"
+		if at := p.Type(agentRel, "agentConnection"); at != nil {
+			if f := fieldByType(at, isByteSlice); f != "" {
+				buffName = f
+			}
+		}
 		// Read and the helpers of the same connection it calls (takeBuffered(b))
 		rdParts := []*ssa.Function{rd}
 		bufParam := map[*ssa.Function]ssa.Value{rd: rd.Params[1]}
@@ -767,7 +774,7 @@ func c16Dispatch(c *Ctx) {
 			if !ok || bi.Name() != "copy" || bufBase(call.Call.Args[0]) != bufParam[part] {
 				return false
 			}
-			x, ok := isFieldLoadNamed(bufBaseSliceOnly(call.Call.Args[1]), "buff")
+			x, ok := isFieldLoadNamed(bufBaseSliceOnly(call.Call.Args[1]), buffName)
 			return ok && x == ssa.Value(part.Params[0])
 		}
 		for _, part := range rdParts {
@@ -778,13 +785,13 @@ func c16Dispatch(c *Ctx) {
 						continue
 					}
 					fa, ok := st.Addr.(*ssa.FieldAddr)
-					if !ok || fieldNameOf(fa) != "buff" {
+					if !ok || fieldNameOf(fa) != buffName {
 						continue
 					}
 					n++
 					okS := false
 					if sl, isSl := st.Val.(*ssa.Slice); isSl && sl.High == nil && sl.Low != nil && isCopyToCaller(sl.Low, part) {
-						if x, isF := isFieldLoadNamed(sl.X, "buff"); isF && x == ssa.Value(part.Params[0]) {
+						if x, isF := isFieldLoadNamed(sl.X, buffName); isF && x == ssa.Value(part.Params[0]) {
 							okS = true
 						}
 					}
@@ -842,8 +849,8 @@ func c16Dispatch(c *Ctx) {
 		for _, b := range rc.Blocks {
 			for _, in := range b.Instrs {
 				if st, ok := in.(*ssa.Store); ok {
-					if fa, ok := st.Addr.(*ssa.FieldAddr); ok && fieldNameOf(fa) == "buff" {
-						okApp = Render(st.Val) == "append(p0.buff, p1)"
+					if fa, ok := st.Addr.(*ssa.FieldAddr); ok && fieldNameOf(fa) == buffName {
+						okApp = Render(st.Val) == "append(p0."+buffName+", p1)"
 					}
 				}
 			}
